@@ -206,6 +206,11 @@ pub fn panics_seen() -> usize {
 }
 
 /// Runs `f`, converting a panic into `Err(message)`.
+/// Most recent panic message (with location) recorded by the hook.
+pub fn last_panic() -> Option<String> {
+    PANIC_MESSAGES.lock().ok().and_then(|v| v.last().cloned())
+}
+
 pub fn catch<T>(f: impl FnOnce() -> T) -> Result<T, String> {
     match catch_unwind(AssertUnwindSafe(f)) {
         Ok(v) => Ok(v),
